@@ -72,6 +72,33 @@ func runCRC(line []byte, rec *recorder) {
 				msg([]byte{byte(x >> 8), byte(x)})
 			}
 		}
+	case "long":
+		// one pass over 64 KB and more (a PES payload, a file), and value patterns: the register's own value followed by zeros, a message
+		// followed by its checksum and zeros, at offsets that are and are not multiples of 4 / 8
+		for _, n := range []int{65535, 65536, 65537, 65540, 70001} {
+			m := rg.bytes(n)
+			rec.ev(M{"ev": "cmp", "m": ints(m), "v": u32(astits.VerifComputeCRC32(m))})
+		}
+		for _, n := range []int{0, 1, 4, 7, 8, 9, 16, 24, 40, 64, 184, 1000} {
+			m := rg.bytes(n)
+			v := astits.VerifComputeCRC32(m)
+			for _, z := range []int{1, 3, 4, 5, 8, 12, 16} {
+				mm := append(append(append([]byte(nil), m...), byte(v>>24), byte(v>>16), byte(v>>8), byte(v)), make([]byte, z)...)
+				mm = append(mm, rg.bytes(rg.pick(0, 0, 1, 5))...)
+				rec.ev(M{"ev": "cmp", "m": ints(mm), "v": u32(astits.VerifComputeCRC32(mm))})
+			}
+		}
+		for i := 0; i < 40; i++ {
+			st := uint32(rg.u64())
+			if i < 3 {
+				st = []uint32{0xffffffff, 1, 0x80000000}[i]
+			}
+			pre := rg.bytes(rg.pick(0, 0, 8, 16, 3))
+			st2 := astits.VerifUpdateCRC32(st, pre)
+			m := append(append([]byte(nil), pre...), byte(st2>>24), byte(st2>>16), byte(st2>>8), byte(st2))
+			m = append(append(m, make([]byte, rg.pick(4, 4, 8, 1, 12))...), rg.bytes(rg.pick(0, 4, 9))...)
+			rec.ev(M{"ev": "updm", "s": u32(st), "m": ints(m), "v": u32(astits.VerifUpdateCRC32(st, m))})
+		}
 	case "msgs":
 		for i := 0; i < sc.N; i++ {
 			n := rg.intn(sc.Max + 1)
